@@ -458,6 +458,24 @@ def _helper_cases(src: str, mode="exec"):
             return res
 
     class P(XonshParser):
+        _span_seen = set()
+
+        def span(self, lnum, col):
+            res = super().span(lnum, col)
+            try:
+                tz_ = self._tokenizer
+                key = (tz_._index, len(tz_._tokens))
+                if key not in self._span_seen and len(self._span_seen) < 40:
+                    self._span_seen.add(key)
+                    tok = tz_.get_last_non_whitespace_token()
+                    js = [i for i, t in enumerate(tz_._tokens) if t is tok]
+                    ok = js and (res["end_lineno"], res["end_col_offset"]) == tuple(tz_._tokens[js[0]].end) and (res["lineno"], res["col_offset"]) == (lnum, col)
+                    req = f"span {tz_._index} " + " ".join(t.type.name for t in tz_._tokens)
+                    cases.append((req, str(js[0]) if ok else "span-does-not-take-that-token's-end", src))
+            except Exception:  # noqa: BLE001
+                pass
+            return res
+
         def make_arguments(self, pos_only, pos_only_with_default, param_no_default, param_default, after_star):
             res = super().make_arguments(pos_only, pos_only_with_default, param_no_default, param_default, after_star)
             ids = {}
@@ -511,6 +529,7 @@ def _helper_cases(src: str, mode="exec"):
             return e
 
     try:
+        P._span_seen = set()
         tz = T(Log(generate_tokens(io.StringIO(src).readline)))
         tz._lines = dict(enumerate(io.StringIO(src).readlines(), 1))
         P(tz).parse("file" if mode == "exec" else "eval")
@@ -527,7 +546,7 @@ def helper_cases(srcs):
     return out
 
 
-def run_helper_correspondence(rep, cases, kinds=("macro", "withmacro", "makeargs", "builderr")):
+def run_helper_correspondence(rep, cases, kinds=("macro", "withmacro", "makeargs", "builderr", "span")):
     by = {}
     for c in cases:
         k = c[0].split(" ", 1)[0]
@@ -535,7 +554,7 @@ def run_helper_correspondence(rep, cases, kinds=("macro", "withmacro", "makeargs
             by.setdefault(k, []).append(c)
     bad_all = []
     for k, cs in sorted(by.items()):
-        bad_all += run_correspondence(rep, {"macro": "consume_macro_params", "withmacro": "consume_with_macro_params", "makeargs": "make_arguments", "builderr": "_build_syntax_error"}[k], cs)
+        bad_all += run_correspondence(rep, {"macro": "consume_macro_params", "withmacro": "consume_with_macro_params", "makeargs": "make_arguments", "builderr": "_build_syntax_error", "span": "span"}[k], cs)
     return bad_all
 
 
